@@ -231,7 +231,8 @@ def strategies():
     S.st = st
     word_first = st.from_regex(r"[A-Za-z_][A-Za-z0-9_]{0,7}", fullmatch=True)
     word_key = st.one_of(
-        st.sampled_from(["ID", "Name", "Parent", "Alias", "Note", "gene_id", "transcript_id", "note", "k1", "k2", "Dbxref"]),
+        st.sampled_from(["ID", "Name", "Parent", "Alias", "Note", "gene_id", "transcript_id", "note", "k1", "k2", "Dbxref",
+                         "product", "description", "Ontology_term"]),
         st.from_regex(r"[A-Za-z_][A-Za-z0-9_.\-]{0,7}", fullmatch=True),
     )
     S.word_first = st.one_of(st.sampled_from(["ID", "Name", "gene_id", "Parent", "k1"]), word_first,
@@ -252,13 +253,16 @@ def strategies():
     def ok_inferred_unquoted(v):
         return v == v.strip() and len(v) > 0 and not v.startswith('"') and not v.endswith('"')
 
-    S.value_escaped = st.one_of(plain, reserved_rich, anytext).filter(ok_inferred_unquoted)
+    # text that looks like an HTML entity or a URL query string is ordinary text
+    entity_like = st.sampled_from(["&lt;", "AT&amp;T", "&#65;", "&#x41", "a&copy=1", "x=1&sect=2", "&amp;amp;", "a+b", "%2B", "+"])
+    S.value_escaped = st.one_of(plain, plain, reserved_rich, reserved_rich, anytext, anytext, entity_like).filter(ok_inferred_unquoted)
 
     gtf_alpha = st.characters(
         blacklist_categories=("Cs", "Cc"), blacklist_characters=';",\x7f'
     )
     S.value_gtf = st.one_of(
         plain,
+        st.sampled_from(["&#65", "a&copy=1", "x=1&sect=2", "&amp", "a+b", "%2B", "%3b"]),
         st.text(alphabet=st.sampled_from(list("ab1 =&%'|.:/-_") + ["é", "λ", "中", "😀"]), min_size=1, max_size=8),
         st.text(alphabet=gtf_alpha, min_size=1, max_size=8),
     ).filter(lambda v: v == v.strip() and len(v) > 0)
